@@ -642,12 +642,13 @@ func checkC12(r *Result) {
 		if fn == nil {
 			continue
 		}
+		votingEv := P.InstrEvent(func(in ssa.Instruction) bool { return storesStatus(in, stVoting) }, T)
 		requireAtSuccess(r, "PERSISTED", fn, "status Voting <=> reporter slashed <=> vote opened, and the dispute is stored after that", []Atom{
-			{Name: "voting", Event: func(in ssa.Instruction) (bool, int8) { return storesStatus(in, stVoting), T }},
+			{Name: "voting", Event: votingEv},
 			{Name: "slashed", Event: P.CallEvent(func(c *CallSite) bool { return c.Callee == "(x/dispute/keeper.Keeper).SlashAndJailReporter" }, T)},
 			{Name: "opened", Event: P.CallEvent(func(c *CallSite) bool { return c.Callee == "(x/dispute/keeper.Keeper).SetStartVote" }, T)},
 			{Name: "stored", Event: func(in ssa.Instruction) (bool, int8) {
-				if storesStatus(in, stVoting) {
+				if m, _ := votingEv(in); m {
 					return true, F
 				}
 				if c, ok := in.(ssa.CallInstruction); ok {
